@@ -443,7 +443,8 @@ func packDataOpt(options []EDNS0, msg []byte, off int) (int, error) {
 }
 
 func unpackStringOctet(msg []byte, off int) (string, int, error) {
-	s := string(msg[off:])
+	// The field holds presentation text, in which a backslash starts an escape sequence.
+	s := strings.ReplaceAll(string(msg[off:]), `\`, `\\`)
 	return s, len(msg), nil
 }
 
